@@ -11,9 +11,10 @@
                                 probability zero: excluded by the oracle contract O-choice)
      jointp probs ids           product of probs[k][ids[k]]
    The model contains the REPAIRED behaviour of finding F9 (samples_needed < 1 returns the exact weights). *)
-From Coq Require Import QArith.
+From Coq Require Import QArith Qround.
 From CKT Require Import Common.Base Extracted.Facts Model.Weights.
 From CKT Require Import Proofs.WeightsP Proofs.WeightsDfs Proofs.WeightsGen Proofs.WeightsTab.
+From CKT Require Import Proofs.WeightsSum Proofs.WeightsCount Proofs.WeightsUnb Proofs.WeightsMachine.
 Open Scope Q_scope.
 
 (* valid probs: every vector is non-negative and sums to 1 (WeightsGen.valid) *)
@@ -51,6 +52,54 @@ Proof.
   - now apply infinite_budget.
   - intros ids. apply all_exact_spec.
 Qed.
+
+(* Number of entries and sum of the weights (wsum r = sum of the weights of r; nq n = the natural n as a rational).
+   ALWAYS: the weights sum to at most N and the deficit is at most N * atol * (number of prefixes of the tree + 1)
+   -- this covers the repaired F9 branch (samples_needed < 1: everything that was left carried mass below the cut-off).
+   Under no_entry_in_cutoff (inputs clean: every entry is 0 or > atol -- observation O2 -- and no raw conditional-table
+   entry of the DFS in (0, atol]) and N <= 1e14: the weights sum to N EXACTLY in Q and there are at most ceil N entries. *)
+Theorem c04_count_sum : forall probs perms q tape r,
+  valid probs -> sorting_perms_b probs perms = true ->
+  gen_weights probs perms (Fin q) tape = Some (Ok r) ->
+  wsum r <= q /\ q - wsum r <= q * (nonzero_atol * nq (S (tree_size probs))) /\
+  (no_entry_in_cutoff probs perms (1 / q) -> nonzero_atol * q <= 1 ->
+     wsum r == q /\ (Z.of_nat (length r) <= Qceiling q)%Z).
+Proof. exact count_sum. Qed.
+
+(* Unbiasedness.  expected_weight = the weight of an exact entry, or single_sample_weight * E[count] where E[count]
+   follows _populate_samples using only O-choice (E[count_i of n draws from p] = n p_i, calls independent).
+   For EVERY joint map (exact ones trivially, all others by the telescoping product of the renormalised tables) the
+   expected weight is N * p, under no_entry_in_cutoff and N <= 1e14.
+   PARTIAL: the branch in which the single-leftover shortcut fires (leftover_walk = Some (Some rs): one map absorbs
+   the whole remaining weight, marked EXACT) is excluded by hypothesis.  The full statement, OPEN:
+     c04_unbiased_open : forall probs perms q ids c, valid probs -> sorting_perms_b probs perms = true ->
+       nonzero_atol * q <= 1 -> no_entry_in_cutoff probs perms (1 / q) -> gen_core probs perms (Fin q) = Ok c ->
+       in_range probs ids -> expected_weight probs perms (Fin q) ids == q * jointp probs ids.
+   (what is missing: the walk of the shortcut consults the tables at every level, the sampler stops consulting at the
+   first prefix without a table; relating the two needs the prefix-closedness of the set of yielded tables.) *)
+Theorem c04_unbiased_partial : forall probs perms q ids c,
+  valid probs -> sorting_perms_b probs perms = true -> nonzero_atol * q <= 1 ->
+  no_entry_in_cutoff probs perms (1 / q) ->
+  gen_core probs perms (Fin q) = Ok c ->
+  (forall mins ret cond wts0 rs,
+      all_some (map min_filter_nonzero probs) = Some mins -> ~ 1 / q <= qprod mins ->
+      dfs_acc probs perms q = (ret, cond, wts0) -> (1 <= Qceiling (wts0 * q))%Z ->
+      leftover_walk probs cond [] = Some (Some rs) -> False) ->
+  in_range probs ids ->
+  expected_weight probs perms (Fin q) ids == q * jointp probs ids.
+Proof. exact unbiased_partial. Qed.
+
+(* The step machine (line-by-line `while True` loop, with fuel) produces the yields of the specification.
+   FINITE-DOMAIN theorem, by computation over ALL 40494 inputs with 1..3 bases, each a non-increasing vector of 1..3
+   entries k/4 (k <= 3), and the thresholds 1/64, 1/16, 1/8, 1/4, 1/2, 1; numbers compared with Qeq (the machine's
+   first running product is probs[0][0], the specification's 1 * probs[0][0]).  The unbounded statement, OPEN:
+     c04_machine_refines_spec_open : forall probs thr, probs <> [] -> Forall (fun b => b <> []) probs ->
+       exists ys, run_machine (fuel_bound probs) probs thr = Some ys /\ yields_eqb ys (dfs_spec probs thr) = true.
+   Independently of this theorem, BOTH the machine and the specification are compared with the implementation's
+   yield sequence on every correspondence case (chk_sorted). *)
+Theorem c04_machine_refines_spec_fin :
+  forallb (fun p => forallb (refines_b p) fin_thrs) fin_inputs = true /\ N.of_nat (length fin_inputs) = 40494%N.
+Proof. split; [exact machine_refines_spec_fin|exact fin_inputs_count]. Qed.
 
 (* NaN, -inf and every finite budget below 1 are refused, whatever else is passed *)
 Theorem c04_refuses : forall probs perms tape N,
@@ -98,6 +147,28 @@ Example c04_ex_bound_needed :
             Qle_bool (1 / (100000000000000000 # 1)) (jointp exTiny [1; 1; 1; 1]%nat) = true.
 Proof. eexists. split; [vm_compute; reflexivity|split; vm_compute; reflexivity]. Qed.
 
+(* the hypotheses of c04_count_sum / c04_unbiased_partial are satisfiable on an input that really samples *)
+Example c04_ex_no_cutoff : no_entry_in_cutoff_b exP exPerms (1 / 4) = true /\
+                           raw_tables (sorted_probs exP exPerms) (1 / 4) <> [].
+Proof. split; [vm_compute; reflexivity|vm_compute; discriminate]. Qed.
+
+Example c04_ex_expected :
+  map (fun ids => Qred (expected_weight exP exPerms (Fin 4) ids)) (cart [3; 2]%nat)
+  = [1 # 2; 3 # 2; 1 # 4; 3 # 4; 1 # 4; 3 # 4] /\
+  map (fun ids => Qred (4 * jointp exP ids)) (cart [3; 2]%nat) = [1 # 2; 3 # 2; 1 # 4; 3 # 4; 1 # 4; 3 # 4].
+Proof. split; vm_compute; reflexivity. Qed.
+
+(* an input on which the cut-off DOES bite (finding F9's input): the weights sum to N - N*2^-46 < N *)
+Example c04_ex_f9 :
+  exists r,
+  gen_weights [[1 # 2; 1 # 2]; [70368744177663 # 70368744177664; 1 # 70368744177664]] [[0; 1]; [0; 1]]%nat (Fin 4) []
+  = Some (Ok r) /\ map fst r = [[0; 0]; [1; 0]]%nat /\ wsum r == 4 - (1 # 17592186044416) /\
+  no_entry_in_cutoff_b [[1 # 2; 1 # 2]; [70368744177663 # 70368744177664; 1 # 70368744177664]] [[0; 1]; [0; 1]]%nat (1 / 4) = false.
+Proof. eexists. split; [vm_compute; reflexivity|]. split; [reflexivity|]. split; vm_compute; reflexivity. Qed.
+
+Print Assumptions c04_count_sum.
+Print Assumptions c04_unbiased_partial.
+Print Assumptions c04_machine_refines_spec_fin.
 Print Assumptions c04_exact_complete.
 Print Assumptions c04_no_zero.
 Print Assumptions c04_infinite.
